@@ -323,6 +323,21 @@ def by_keyword(func, args, observe=None):
     return None
 
 
+def harvest_ratios(module):
+    """Float literals strictly between 0 and 1 in a module's source: shares and fill factors (a
+    node "95 % full", a quadrant holding "all but 0.5 %").  A count-based rule built on a share r
+    changes its mind near 1/r and 1/(1-r) items."""
+    import ast                              # pylint: disable=import-outside-toplevel
+    import inspect                          # pylint: disable=import-outside-toplevel
+    try:
+        tree = ast.parse(inspect.getsource(module))
+    except (OSError, TypeError, SyntaxError):
+        return []
+    return sorted({node.value for node in ast.walk(tree)
+                   if isinstance(node, ast.Constant) and isinstance(node.value, float)
+                   and 0.0 < node.value < 1.0})
+
+
 def harvest_ints(module, low=8, high=1 << 40):
     """Whole-number literals in a module's source (also inside float literals like 1e15 and in
     simple constant expressions of two literals): the thresholds, block sizes and caps the code
@@ -337,10 +352,49 @@ def harvest_ints(module, low=8, high=1 << 40):
     except (OSError, TypeError, SyntaxError):
         return []
     found = set()
+
+    def fold(node):
+        """Value of an arithmetic expression made of number literals only, else None."""
+        if isinstance(node, ast.Constant):
+            ok = isinstance(node.value, (int, float)) and not isinstance(node.value, bool)
+            return node.value if ok else None
+        if isinstance(node, ast.UnaryOp) and isinstance(node.op, (ast.USub, ast.UAdd)):
+            val = fold(node.operand)
+            return None if val is None else (-val if isinstance(node.op, ast.USub) else val)
+        if isinstance(node, ast.BinOp):
+            left, right = fold(node.left), fold(node.right)
+            if left is None or right is None:
+                return None
+            try:
+                if isinstance(node.op, ast.Add):
+                    return left + right
+                if isinstance(node.op, ast.Sub):
+                    return left - right
+                if isinstance(node.op, ast.Mult):
+                    return left * right
+                if isinstance(node.op, ast.FloorDiv):
+                    return left // right
+                if isinstance(node.op, ast.Div):
+                    return left / right
+                if isinstance(node.op, ast.LShift) and 0 <= right <= 64:
+                    return left << right
+                if isinstance(node.op, ast.Pow) and abs(right) <= 64 and abs(left) <= 1 << 16:
+                    return left ** right
+            except (ArithmeticError, TypeError, ValueError):
+                return None
+        return None
+
+    nodes = []
     for node in ast.walk(tree):
-        if isinstance(node, ast.Constant) and isinstance(node.value, (int, float)) and \
+        if isinstance(node, ast.BinOp):
+            val = fold(node)
+            if val is not None and not isinstance(val, complex):
+                nodes.append(val)
+        elif isinstance(node, ast.Constant) and isinstance(node.value, (int, float)) and \
                 not isinstance(node.value, bool):
-            val = node.value
+            nodes.append(node.value)
+    for val in nodes:
+        if True:
             if isinstance(val, float):
                 if not math.isfinite(val):
                     continue
